@@ -28,7 +28,7 @@ def opFault (op : String) (a : Args) : Option String := do
     | some "none" | none => none
     | some v => v.toNat?
   match op with
-  | "fault.enc" | "fault.writec" | "fault.rawcopy" => some "oracle-only"   -- cipher / codec layers are external: judged by the oracle alone
+  | "fault.enc" | "fault.writec" | "fault.rawcopy" | "fault.stream" => some "oracle-only"   -- cipher / codec layers are external: judged by the oracle alone
   | "fault.read" => some (faultRead (← a.hex? "bytes") fa)
   | "fault.write" =>
     let calls := ((a.get? "calls").getD "").splitOn ";"
